@@ -9,8 +9,9 @@ rows = []
 for d in sorted(glob.glob(os.path.join(root, "seeded", "*", "meta.json"))):
     m = json.load(open(d))
     r = res.get(m["id"], {})
-    src = ("own" if "-own-" in m["id"] else "revert" if "-revert-" in m["id"] else
-           "agent r3" if "-r3-" in m["id"] else "agent r2" if "-r2-" in m["id"] else "agent r1")
+    import re
+    mm = re.search(r"-r([2-9])-", m["id"])
+    src = ("own" if "-own-" in m["id"] else "revert" if "-revert-" in m["id"] else f"agent r{mm.group(1)}" if mm else "agent r1")
     how = []
     for chk, c in (r.get("checks") or {}).items():
         if c.get("exit") == 1:
